@@ -81,19 +81,29 @@ impl Intersectable for AABB {
     /// NaN es siempre distinto, de modo que las comparaciones con NaN son correctas
     /// Las AABB deben tener ancho > 0 en todas las dimensiones
     fn intersects(&self, ray: &Ray) -> Option<f32> {
-        let idx = 1.0 / ray.dir.x;
-        let idy = 1.0 / ray.dir.y;
-        let idz = 1.0 / ray.dir.z;
+        // Intervalo (entrada, salida) del rayo entre cada par de planos
+        // Un rayo paralelo a los planos (dir == 0) está siempre entre ellos si lo está su origen
+        // (caras incluidas) y nunca en otro caso. Evita el NaN de 0 * inf cuando el origen está en una cara
+        let slab = |min: f32, max: f32, origin: f32, dir: f32| -> (f32, f32) {
+            if dir == 0.0 {
+                if origin < min || origin > max {
+                    (f32::INFINITY, f32::NEG_INFINITY)
+                } else {
+                    (f32::NEG_INFINITY, f32::INFINITY)
+                }
+            } else {
+                let id = 1.0 / dir;
+                let t1 = (min - origin) * id;
+                let t2 = (max - origin) * id;
+                (t1.min(t2), t1.max(t2))
+            }
+        };
+        let (tx_in, tx_out) = slab(self.min.x, self.max.x, ray.origin.x, ray.dir.x);
+        let (ty_in, ty_out) = slab(self.min.y, self.max.y, ray.origin.y, ray.dir.y);
+        let (tz_in, tz_out) = slab(self.min.z, self.max.z, ray.origin.z, ray.dir.z);
 
-        let t1 = (self.min.x - ray.origin.x) * idx;
-        let t2 = (self.max.x - ray.origin.x) * idx;
-        let t3 = (self.min.y - ray.origin.y) * idy;
-        let t4 = (self.max.y - ray.origin.y) * idy;
-        let t5 = (self.min.z - ray.origin.z) * idz;
-        let t6 = (self.max.z - ray.origin.z) * idz;
-
-        let tmin = t1.min(t2).max(t3.min(t4)).max(t5.min(t6));
-        let tmax = t1.max(t2).min(t3.max(t4)).min(t5.max(t6));
+        let tmin = tx_in.max(ty_in).max(tz_in);
+        let tmax = tx_out.min(ty_out).min(tz_out);
 
         // Si tmax < 0 la línea interseca pero el AABB está detrás
         if tmax < 0.0 {
